@@ -21,7 +21,7 @@ LEVEL_TEXT.update({
     'C08': 'Unbounded deductive proof (Verus) of the trap-reset clause and of the open-files clause for pipelines only (command traps reset to default with the parent state saved, ignores kept, on subshell entry: per record and for the whole table, TrapSet::enter_subshell). Also: PipeSet::shift leaves no pipe descriptor behind in the parent and move_to_stdin_stdout wires the child to the previous and the next pipe. The rest of C08 (isolation of all other state under every interleaving) is outside what a function contract can state and is not claimed.',
 })
 LEVEL_TEXT.update({
-    'C01': 'Kernel only. Unbounded deductive proof (Verus): Ranges::next equals a reference IFS splitter on every input; only unquoted expansion results are classified as separators; the unset-or-null table of the switch forms equals XCU 2.6.2. Bounded (Kani, concrete enumeration): the real Ifs::new/non_whitespaces/Ranges::next against an executable reference for five IFS values and inputs of <= 2-3 characters. The statement as a whole (all expansion forms x all shell states) runs through async code and is not decided.',
+    'C01': 'Kernel only. Unbounded deductive proof (Verus): Ranges::next equals a reference IFS splitter on every input; only unquoted expansion results are classified as separators; the unset-or-null table of the switch forms equals XCU 2.6.2; double quotes mark every character of every field quoted between two quoting characters and expand their text in a non-splitting context that is restored afterwards. Bounded (Kani, concrete enumeration): the real Ifs::new/non_whitespaces/Ranges::next against an executable reference for five IFS values and inputs of <= 2-3 characters. The statement as a whole (all expansion forms x all shell states) runs through async code and is not decided.',
 })
 LEVEL_TEXT.update({
     'C04': 'Translation kernel: unbounded Verus proofs that every literal character (all of char) is emitted as text denoting itself outside and inside a character class, that ? * become . .*, that a range is start-hyphen-end, and of make_range; bounded Kani checks (every ASCII character, one-character symbols) for the emitters Verus cannot take, and the unclosed-[ case. Not a decision of the language equality, which is delegated to the regex engine.',
